@@ -220,7 +220,15 @@ func (c *Collection) chunks() int {
 	}
 
 	max, _ := c.fill.Max()
-	return int(commit.ChunkAt(max) + 1)
+	chunks := int(commit.ChunkAt(max) + 1)
+
+	// A chunk which no commit has reached yet can only hold offsets reserved by
+	// transactions that are still open: nothing is stored in it and the columns have
+	// not been grown to it, hence it is not part of the collection yet.
+	if chunks > len(c.commits) {
+		chunks = len(c.commits)
+	}
+	return chunks
 }
 
 // readChunk acquires appropriate locks for a chunk and executes a read callback.
